@@ -123,6 +123,70 @@ def _run_one(args):
         [o.rule for o in viol]
 
 
+def apply_unified_diff(sources, diff_text):
+    """Applies a `git diff` of mabwiser/*.py to {module: source}; returns {module: new source} for the touched
+    modules, or None when a hunk does not fit (the tree moved on)."""
+    out = {}
+    cur = None
+    hunks = {}
+    for line in diff_text.split("\n"):
+        if line.startswith("+++ "):
+            path = line[4:].strip()
+            path = path[2:] if path.startswith("b/") else path
+            cur = os.path.basename(path)[:-3] if path.endswith(".py") and "mabwiser/" in path else None
+            if cur is not None:
+                hunks[cur] = []
+        elif line.startswith("@@") and cur is not None:
+            hunks[cur].append([])
+        elif cur is not None and hunks[cur] and (line[:1] in (" ", "+", "-") or line == ""):
+            if line.startswith("--- ") or line.startswith("diff "):
+                continue
+            hunks[cur][-1].append(line)
+        elif line.startswith("diff "):
+            cur = None
+    for mod, hs in hunks.items():
+        if mod not in sources:
+            return None
+        lines = sources[mod].split("\n")
+        pos = 0
+        for h in hs:
+            while h and h[-1] == "":
+                h.pop()
+            old = [ln[1:] for ln in h if ln[:1] in (" ", "-") or ln == ""]
+            new = [ln[1:] for ln in h if ln[:1] in (" ", "+") or ln == ""]
+            found = None
+            for i in range(pos, len(lines) - len(old) + 1):
+                if lines[i:i + len(old)] == old:
+                    found = i
+                    break
+            if found is None:
+                return None
+            lines[found:found + len(old)] = new
+            pos = found + len(new)
+        out[mod] = "\n".join(lines)
+    return out
+
+
+def seeds_for(prop):
+    """(directory name, patch text, expectation) of the independently seeded changes written against `prop`"""
+    import json
+    base = os.path.join(os.path.dirname(os.path.dirname(os.path.abspath(__file__))), "seeded")
+    out = []
+    if not os.path.isdir(base):
+        return out
+    for d in sorted(os.listdir(base)):
+        mp, pp = os.path.join(base, d, "meta.json"), os.path.join(base, d, "patch.diff")
+        if not (os.path.exists(mp) and os.path.exists(pp)):
+            continue
+        with open(mp) as f:
+            meta = json.load(f)
+        if meta.get("property") != prop:
+            continue
+        with open(pp) as f:
+            out.append((d, f.read(), meta.get("expect", "violation")))
+    return out
+
+
 def catalogue():
     from . import variants
     return variants.VARIANTS
@@ -142,6 +206,16 @@ def run(prop, seed=0, verbose=True, only=None):
             continue
         todo.append((v, (v.vid, v.prop, src, prog.root)))
     if not only:
+        # the independently seeded changes written against this property must be reported
+        srcs = {m.name: m.source for m in prog.modules.values()}
+        for d, patch, expect in seeds_for(prop):
+            ov = apply_unified_diff(srcs, patch)
+            v = Variant("seed:" + d, prop, "*", "*", "", "", rule=None, why="seeded change " + d)
+            v.expect = expect
+            if ov is None:
+                na.append(v.vid)
+                continue
+            todo.append((v, (v.vid, prop, ov, prog.root)))
         # whole-package behaviour-preserving transformations: every check must stay silent on them
         from . import benign
         for tname in benign.TRANSFORMS:
@@ -166,7 +240,9 @@ def run(prop, seed=0, verbose=True, only=None):
                 bad.append("benign variant %s raised %s: %s" % (v.vid, status, res[2][:3]))
         else:
             rules = res[3] if len(res) > 3 else []
-            if status == "violated" and (v.rule is None or v.rule in rules):
+            if getattr(v, "expect", "violation") == "analysis-error" and status in ("error", "undecided", "violated"):
+                killed += 1
+            elif status == "violated" and (v.rule is None or v.rule in rules):
                 killed += 1
             else:
                 bad.append("mutant %s (%s) not reported as expected: status=%s %s" % (v.vid, v.why, status,
